@@ -127,6 +127,9 @@ def _record(res, case, out, known_sigs, max_samples=3):
             res.found[sig] = (size, case, msg)
 
 
+CHUNK = 1000
+
+
 def _load_module(pid):
     import importlib
     return importlib.import_module('scmoverif.props.%s' % pid.lower())
@@ -155,16 +158,29 @@ def run_hyp_shard(args):
         strat = part.strategy()
         known = set(known_sigs)
 
-        @hseed(derive_seed(seed, pid, part_name, shard))
-        @settings(max_examples=n_examples, database=None, deadline=None, derandomize=False,
-                  report_multiple_bugs=False, phases=[Phase.generate],
-                  suppress_health_check=list(HealthCheck))
-        @given(strat)
-        def prop(case):
-            out = part.evaluate(case)
-            _record(res, case, out, known)
+        # Hypothesis keeps a tree of everything it generated in one run: a shard of many thousand large cases grows to
+        # gigabytes. The shard is therefore run as consecutive chunks of at most CHUNK examples, each a fresh Hypothesis
+        # run with its own derived seed (the first chunk uses the seed a single run would use).
+        done, chunk = 0, 0
+        while done < n_examples:
+            n = min(CHUNK, n_examples - done)
+            sd = derive_seed(seed, pid, part_name, shard) if chunk == 0 else derive_seed(seed, pid, part_name, shard, 'chunk%d' % chunk)
 
-        prop()
+            @hseed(sd)
+            @settings(max_examples=n, database=None, deadline=None, derandomize=False,
+                      report_multiple_bugs=False, phases=[Phase.generate],
+                      suppress_health_check=list(HealthCheck))
+            @given(strat)
+            def prop(case):
+                out = part.evaluate(case)
+                _record(res, case, out, known)
+
+            prop()
+            del prop
+            done += n
+            chunk += 1
+            import gc
+            gc.collect()
     except Exception:
         res.error = 'part %s shard %d: %s' % (part_name, shard, traceback.format_exc())
     return res
